@@ -592,3 +592,40 @@ Example C02_ec_from_bytes_examples :
   /\ parse_sec1_der (Err "no answer") (enc_seq (enc_int 1 ++ enc_octets d ++ [160; 0])) = Err "asn1".
 Proof. exact ec_der_examples. Qed.
 Print Assumptions C02_ec_from_bytes_examples.
+
+(* What the other integer-only readers accept, for ALL bytes (contrapositive: everything else is refused):
+   one canonical-header universal constructed SEQUENCE whose content begins with the struct's INTEGERs, each
+   primitive and passing checkInteger, the int-typed ones (Version, E) of at most 8 octets; the description
+   is that of the modulus / prime.  [extra] / [tail] / [rest] are arbitrary (for RSAPrivateKey the tail holds
+   the optional CRT values and otherPrimeInfos, which are decoded but never shown). *)
+Theorem C02_dsa_parameters_accepts_only : forall der i, bytes_ok der = true ->
+  parse_dsa_parameters_der der = Ok i ->
+  exists cp cq cg extra rest,
+    der = enc_seq (tlv_enc 2 false cp ++ tlv_enc 2 false cq ++ tlv_enc 2 false cg ++ extra) ++ rest
+    /\ is_ok (der_int_dec cp) = true /\ is_ok (der_int_dec cq) = true /\ is_ok (der_int_dec cg) = true
+    /\ i = Info (bs "DSA parameters") (dsa_parameter_attrs (twos cp)) [].
+Proof. exact dsa_parameters_der_sound. Qed.
+Print Assumptions C02_dsa_parameters_accepts_only.
+
+Theorem C02_dsa_private_accepts_only : forall der i, bytes_ok der = true ->
+  parse_dsa_private_der der = Ok i ->
+  exists cv cp cq cg cy cx extra rest,
+    der = enc_seq (tlv_enc 2 false cv ++ tlv_enc 2 false cp ++ tlv_enc 2 false cq ++ tlv_enc 2 false cg
+                   ++ tlv_enc 2 false cy ++ tlv_enc 2 false cx ++ extra) ++ rest
+    /\ is_ok (der_int_dec cv) = true /\ (length cv <= 8)%nat
+    /\ forallb (fun c => is_ok (der_int_dec c)) [cp; cq; cg; cy; cx] = true
+    /\ i = Info (bs "DSA private key") (dsa_attrs (twos cp)) [].
+Proof. exact dsa_private_der_sound. Qed.
+Print Assumptions C02_dsa_private_accepts_only.
+
+Theorem C02_pkcs1_private_accepts_only : forall der i, bytes_ok der = true ->
+  parse_pkcs1_private_der der = Ok i ->
+  exists cv cn ce cd cp cq tail rest,
+    der = enc_seq (tlv_enc 2 false cv ++ tlv_enc 2 false cn ++ tlv_enc 2 false ce ++ tlv_enc 2 false cd
+                   ++ tlv_enc 2 false cp ++ tlv_enc 2 false cq ++ tail) ++ rest
+    /\ is_ok (der_int_dec cv) = true /\ (length cv <= 8)%nat
+    /\ is_ok (der_int_dec ce) = true /\ (length ce <= 8)%nat
+    /\ forallb (fun c => is_ok (der_int_dec c)) [cn; cd; cp; cq] = true
+    /\ i = Info (bs "PKCS#1 private key") (pkcs1_attrs (twos cn)) [].
+Proof. exact pkcs1_private_der_sound. Qed.
+Print Assumptions C02_pkcs1_private_accepts_only.
